@@ -140,7 +140,7 @@ func (s *seqRun) add(entry string) {
 // watchdog: a library call that never returns (a Get that parks although elements are queued,
 // an eviction loop that does not end) must cost one case, not the child.
 func seqCase(c *vlib.Ctx, kind int, i int, r *vlib.Rand) {
-	section := "seq-" + []string{"rq", "dq"}[kind]
+	section := secName("seq-", kind)
 	if skipAbandoned(c, section, i) {
 		return
 	}
